@@ -228,7 +228,8 @@ class LocalEnv:
                 if x.get('k') == 'DeclRefExpr' and x.get('local') and x.get('dloc') in self.no_alias:
                     c = False
                     break
-                if x.get('k') == 'CXXMemberCallExpr' and not (x.get('callee') or '').endswith(' const') and not (x.get('callee_name') or '').startswith('std::'):
+                if x.get('k') == 'CXXMemberCallExpr' and not (x.get('callee') or '').endswith(' const') and not (x.get('callee_name') or '').startswith('std::') and \
+                        not (x.get('callee_name') or '').rsplit('::', 1)[-1].startswith(('get_', 'is_')):      # get_x() / is_x() are the repository's accessors
                     c = False       # a call that may create or change something (sat->new_var(), new_distance(..)): the local holds its RESULT
                     break
                 if x.get('k') == 'CXXNewExpr':
@@ -246,9 +247,10 @@ class LocalEnv:
         init = self.defs.get(d)
         if init is None:
             return None
-        t = (self.types.get(d) or '').replace('const ', '')
-        if t.startswith(self._CONTAINERS):
-            return None
+        t0 = self.types.get(d) or ''
+        t = t0.replace('const ', '')
+        if t.startswith(self._CONTAINERS) and not t0.startswith('const '):
+            return None         # a container being filled; a const (reference to a) container is only a name for the expression it was initialised with
         x = init
         while isinstance(x, dict) and x.get('k') in ('UnaryOperator', 'CXXOperatorCallExpr') and x.get('op') == '*':
             x = (x.get('c') or [None])[-1]
